@@ -52,7 +52,7 @@ func fixedC16Scenario() c16Scenario {
 			{Method: ovsdb.ConditionalMonitorSinceRPC, Tables: map[string][]string{"T0": nil}},
 			{Method: ovsdb.ConditionalMonitorRPC, Tables: map[string][]string{"T1": nil, "T2": nil}},
 		},
-		Steps: []string{"foreign-insert", "monitor:0", "own-invalid", "own", "monitor:1", "foreign-insert", "own", "foreign-delete", "echo", "foreign-update", "own", "foreign-insert"},
+		Steps: []string{"foreign-insert", "monitor:0", "own-invalid", "own", "monitor:1", "foreign-insert", "cancel-failed", "own", "foreign-delete", "echo", "foreign-update", "own", "foreign-insert"},
 	}
 }
 
@@ -79,7 +79,7 @@ func genC16Scenario(t *rapid.T) c16Scenario {
 			next++
 			continue
 		}
-		sc.Steps = append(sc.Steps, rapid.SampledFrom([]string{"own", "own", "own-invalid", "foreign-insert", "foreign-insert", "foreign-delete", "foreign-update", "echo"}).Draw(t, "step"))
+		sc.Steps = append(sc.Steps, rapid.SampledFrom([]string{"own", "own", "own-invalid", "foreign-insert", "foreign-insert", "foreign-delete", "foreign-update", "echo", "cancel-failed"}).Draw(t, "step"))
 	}
 	return sc
 }
@@ -223,6 +223,7 @@ func runC16Unguarded(w *kit.World, sc c16Scenario, faults []kit.Fault) c16Outcom
 		}
 		return true
 	}
+	cookies := make([]client.MonitorCookie, len(sc.Monitors))
 	for _, step := range sc.Steps {
 		switch {
 		case strings.HasPrefix(step, "monitor:"):
@@ -233,9 +234,25 @@ func runC16Unguarded(w *kit.World, sc c16Scenario, faults []kit.Fault) c16Outcom
 			}
 			mon := buildMonitor(w, c, sc.Monitors[i])
 			ctx, cancel := context.WithTimeout(bg, callTimeout)
-			_, err := c.Monitor(ctx, mon)
+			cookie, err := c.Monitor(ctx, mon)
 			cancel()
 			out.Established[i] = err == nil
+			cookies[i] = cookie
+		case step == "cancel-failed":
+			// the cancellation of a monitor that does not succeed (this server does not implement
+			// it, or the connection is lost meanwhile): the monitor is still one of the client's
+			for i := range sc.Monitors {
+				if !out.Established[i] {
+					continue
+				}
+				ctx, cancel := context.WithTimeout(bg, callTimeout)
+				err := c.MonitorCancel(ctx, cookies[i])
+				cancel()
+				if err == nil {
+					out.Established[i] = false
+				}
+				break
+			}
 		case step == "own":
 			ownN++
 			marker := fmt.Sprintf("own-%d", ownN)
